@@ -321,6 +321,13 @@ func (its *PushPullHandler) processSubscribeOrCreate(code pushPullCase) errors.O
 		}
 		return errors.PushPullNoDatatypeToSubscribe.New(its.ctx.L(), msg)
 	}
+	if code == caseUsedDUID && (its.gotOption.HasCreateBit() || its.gotOption.HasSubscribeBit()) {
+		// no datatype has the key, and the DUID of the pack already belongs to another datatype
+		if its.gotOption.HasCreateBit() {
+			return errors.PushPullDuplicateKey.New(its.ctx.L(), "DUID of "+its.Key+" is already used")
+		}
+		return errors.PushPullNoDatatypeToSubscribe.New(its.ctx.L(), its.Key)
+	}
 	if its.gotOption.HasSubscribeBit() && its.gotOption.HasCreateBit() {
 		switch code {
 		case caseMatchNothing:
@@ -354,6 +361,9 @@ func (its *PushPullHandler) processSubscribeOrCreate(code pushPullCase) errors.O
 		case caseAllMatchedNotVisible: //
 		default:
 		}
+	}
+	if its.datatypeDoc == nil { // neither created nor found
+		return errors.PushPullNoDatatypeToSubscribe.New(its.ctx.L(), its.Key)
 	}
 	return its.initClientInfoWithDatatypeDoc()
 }
@@ -418,6 +428,11 @@ func (its *PushPullHandler) evaluatePushPullCase() (pushPullCase, errors.OrdaErr
 		}
 		if its.datatypeDoc == nil {
 			return caseMatchNothing, nil
+		}
+		if its.datatypeDoc.CollectionNum != its.collectionDoc.Num {
+			// DUIDs are looked up in all collections; a datatype of another collection does not exist for this client,
+			// but its DUID is taken
+			its.datatypeDoc = nil
 		}
 		return caseUsedDUID, nil
 	}
